@@ -11,7 +11,16 @@ type WSample struct {
 	S int   `json:"s"`
 	T int64 `json:"t"`
 	V int64 `json:"v"`
+	// K: kind of the sample: 0 float, 1 integer histogram, 2 float histogram, 3 integer
+	// custom-bucket histogram (NHCB), 4 float NHCB.  The value code of a histogram is its Sum.
+	K int `json:"k,omitempty"`
 }
+
+// kindTag is folded into the value code the Coq side sees (an uninterpreted tag: a sample that
+// comes back with another kind is an alien value).
+const kindTag = 1000000
+
+func (s WSample) code() int64 { return int64(s.K)*kindTag + s.V }
 
 // WOp is one API-level operation of a workload.
 type WOp struct {
@@ -20,6 +29,8 @@ type WOp struct {
 	Mint    int64     `json:"mint,omitempty"`
 	Maxt    int64     `json:"maxt,omitempty"`
 	Sel     []int     `json:"sel,omitempty"`
+	// V2: the transaction goes through DB.AppenderV2 instead of the classic DB.Appender
+	V2 bool `json:"v2,omitempty"`
 	// Nested: a transaction that is not run by the main loop but from inside a hook of the
 	// following compactooo_race operation (while the out-of-order compaction is paused there)
 	Nested bool `json:"nested,omitempty"`
@@ -34,6 +45,58 @@ type Workload struct {
 	// NoModel: the history interleaves operations (a commit inside a compaction); its cases are
 	// judged by `holds` on the acknowledgement log only
 	NoModel bool `json:"no_model,omitempty"`
+	// Kinds: a workload over all sample kinds and both appenders (always NoModel)
+	Kinds bool `json:"kinds,omitempty"`
+}
+
+// corpusKindPairs: for both appenders and every ordered pair (k1, k2) of sample kinds one
+// transaction in which series 1 gets a sample of kind k1 and then, 5 ms later, one of kind k2
+// (series 2 gets one of kind k2 in between).  No compaction: the WAL is the only durable copy.
+func corpusKindPairs() Workload {
+	w := Workload{Name: "corpus-kind-switch-pairs", BlockRange: 100000, OOOWindow: 0, NoModel: true, Kinds: true}
+	t, v := int64(10), int64(1)
+	for _, v2 := range []bool{false, true} {
+		for k1 := 0; k1 < 5; k1++ {
+			for k2 := 0; k2 < 5; k2++ {
+				w.Ops = append(w.Ops, WOp{Kind: "tx", V2: v2, Samples: []WSample{
+					{S: 1, T: t, V: v, K: k1}, {S: 2, T: t + 2, V: v + 1, K: k2}, {S: 1, T: t + 5, V: v + 2, K: k2}}})
+				t += 20
+				v += 3
+			}
+		}
+		w.Ops = append(w.Ops, WOp{Kind: "restart"})
+	}
+	return w
+}
+
+// genKindsWorkload: random in-order transactions over three series, all sample kinds, both
+// appenders, rollbacks, a clean restart in the middle; no compaction.
+func genKindsWorkload(r *gen.Rand, name string, ntx int) Workload {
+	w := Workload{Name: name, BlockRange: 100000, OOOWindow: 0, NoModel: true, Kinds: true}
+	t, v := int64(r.Intn(50)), int64(1)
+	for i := 0; i < ntx; i++ {
+		op := WOp{Kind: "tx", V2: r.Bool()}
+		if r.Chance(1, 10) {
+			op.Kind = "rollback"
+		}
+		n := 2 + r.Intn(4)
+		last := -1
+		for j := 0; j < n; j++ {
+			sid := 1 + r.Intn(3)
+			if last > 0 && r.Chance(1, 2) {
+				sid = last // the same series again: a kind switch inside the transaction is likely
+			}
+			last = sid
+			t += 1 + int64(r.Intn(9))
+			op.Samples = append(op.Samples, WSample{S: sid, T: t, V: v, K: r.Intn(5)})
+			v++
+		}
+		w.Ops = append(w.Ops, op)
+		if i == ntx/2 {
+			w.Ops = append(w.Ops, WOp{Kind: "restart"})
+		}
+	}
+	return w
 }
 
 // corpusMixedMerge is the reproducer of the finding "mixed-merge-advances-minvalidtime".
@@ -59,10 +122,10 @@ func corpusMixedMerge() Workload {
 // restart the tombstone record straddles minValidTime and must still hide 2200 and 2400.
 func corpusDeleteStraddle() Workload {
 	return Workload{Name: "corpus-delete-straddles-block-boundary", BlockRange: 1000, OOOWindow: 0, Ops: []WOp{
-		{Kind: "tx", Samples: []WSample{{1, 100, 1}, {2, 1600, 2}, {1, 1700, 3}, {2, 1800, 4}, {2, 2200, 5}, {1, 2300, 6}, {2, 2400, 7}, {2, 2600, 8}, {1, 3400, 9}}},
+		{Kind: "tx", Samples: []WSample{{S: 1, T: 100, V: 1}, {S: 2, T: 1600, V: 2}, {S: 1, T: 1700, V: 3}, {S: 2, T: 1800, V: 4}, {S: 2, T: 2200, V: 5}, {S: 1, T: 2300, V: 6}, {S: 2, T: 2400, V: 7}, {S: 2, T: 2600, V: 8}, {S: 1, T: 3400, V: 9}}},
 		{Kind: "delete", Mint: 1500, Maxt: 2500, Sel: []int{2}},
 		{Kind: "compact"},
-		{Kind: "tx", Samples: []WSample{{1, 3450, 10}, {2, 3460, 11}}},
+		{Kind: "tx", Samples: []WSample{{S: 1, T: 3450, V: 10}, {S: 2, T: 3460, V: 11}}},
 	}}
 }
 
@@ -71,12 +134,12 @@ func corpusDeleteStraddle() Workload {
 // per-series m-map loop; after truncateOOO both must survive a kill.
 func corpusOOORace() Workload {
 	return Workload{Name: "corpus-ooo-commit-during-ooo-compaction", BlockRange: 1000, OOOWindow: 2000, NoModel: true, Ops: []WOp{
-		{Kind: "tx", Samples: []WSample{{1, 100, 1}, {1, 600, 2}, {2, 700, 3}, {1, 1200, 4}, {2, 1300, 5}}},
-		{Kind: "tx", Samples: []WSample{{1, 300, 6}, {2, 400, 7}}},
-		{Kind: "tx", Nested: true, Samples: []WSample{{1, 350, 8}}},
-		{Kind: "tx", Nested: true, Samples: []WSample{{2, 450, 9}}},
+		{Kind: "tx", Samples: []WSample{{S: 1, T: 100, V: 1}, {S: 1, T: 600, V: 2}, {S: 2, T: 700, V: 3}, {S: 1, T: 1200, V: 4}, {S: 2, T: 1300, V: 5}}},
+		{Kind: "tx", Samples: []WSample{{S: 1, T: 300, V: 6}, {S: 2, T: 400, V: 7}}},
+		{Kind: "tx", Nested: true, Samples: []WSample{{S: 1, T: 350, V: 8}}},
+		{Kind: "tx", Nested: true, Samples: []WSample{{S: 2, T: 450, V: 9}}},
 		{Kind: "compactooo_race"},
-		{Kind: "tx", Samples: []WSample{{1, 1400, 10}}},
+		{Kind: "tx", Samples: []WSample{{S: 1, T: 1400, V: 10}}},
 	}}
 }
 
